@@ -264,10 +264,11 @@ def gen_name(rng):
   return 'ends-digit', rand_ident(rng, 1, 4) + rng.choice(string.digits) + rng.choice(['', '\n', '_2', '\u0661'])
 
 
-def keyword_variants():
+def keyword_variants(full=True):
   """every keyword in every case variant that matters, bare and with invalid characters around it
   (deterministic: part of every run, for both pick functions, batches and the engine stream)"""
-  return [w for v in bare_keyword_variants() for w in (v, ' ' + v, v + '!', '_' + v, '-' + v + ' ', '1' + v)]
+  return [w for v in bare_keyword_variants()
+          for w in ((v, ' ' + v, v + '!', '_' + v, '-' + v + ' ', '1' + v) if full else (v, ' ' + v, v + '!', '_' + v))]
 
 
 def bare_keyword_variants():
@@ -486,7 +487,7 @@ def build_cases(ctx):
 
 def _build(ctx, ids, rng, out, seen, N, pick_case):
   # every keyword x case variant x surrounding junk, through both functions, without and with a colliding name
-  kwv = keyword_variants()
+  kwv = keyword_variants(full=ctx.tier == 'thorough')
   for name in kwv:
     for fn, key in ((ids.pick_col_ident, 'col'), (ids.pick_table_ident, 'table')):
       pick_case(fn, key, name, [], 'keyword-variants')
@@ -566,7 +567,7 @@ def _build(ctx, ids, rng, out, seen, N, pick_case):
     out['gen'].append(((avoid,), 'case_gen %s %s %s' % (tables_for([], avoid + [r]), strs(avoid), core.strlit(r)), r))
 
   # batches
-  kwv = keyword_variants()
+  kwv = keyword_variants(full=ctx.tier == 'thorough')
   kw_batches = [(kwv[i:i + 12], ['id']) for i in range(0, len(kwv), 12)]
   for k in range(len(kw_batches) + ctx.n(250, 5000)):
     idents, avoid = kw_batches[k] if k < len(kw_batches) else gen_batch(ctx)
@@ -658,6 +659,8 @@ def focused_search(ctx):
     cands = []
     for n in names + outs:
       cands.extend(neighbours(n))
+    if any(kw.lower() in n.lower() for kw in keyword.kwlist for n in names + outs):
+      cands.extend(keyword_variants())       # a keyword is involved: every keyword in every case variant
     avoids = [[], avoid[:8], [o.swapcase() for o in outs][:4], [o.lower() for o in outs][:4] + [n for n in names][:4]]
     for cand in cands:
       for av in avoids:
@@ -723,7 +726,7 @@ def _shrink(w, fails):
   changed = True
   while changed:
     changed = False
-    for field in ('avoid', 'idents'):
+    for field in ('avoid', 'idents', 'history'):
       if field in w:
         i = 0
         while i < len(w[field]):
@@ -762,32 +765,46 @@ def engine_ids(e):
   return tabs
 
 
+def check_doc(e, a):
+  """the ids stored in the metadata after action a: every table id / column id valid, unique case-insensitively"""
+  tabs = engine_ids(e)
+  seen_t = []
+  for t, cols in tabs.items():
+    bad = check_id(t, seen_t, True)
+    if bad:
+      return (bad[0], 'after %r: table id %s' % (a, bad[1]))
+    seen_t.append(t)
+    seen_c = ['id']
+    for c in cols:
+      bad = check_id(c, seen_c, False)
+      if bad:
+        return (bad[0], 'after %r: column id of %s: %s' % (a, t, bad[1]))
+      seen_c.append(c)
+  return None
+
+
+def apply_checked(e, a):
+  """apply one user action; (kind, description) if the property fails, else None (other failures are allowed)"""
+  from harness import gristenv
+  try:
+    gristenv.apply(e, [a])
+  except SyntaxError as ex:
+    # the generated module (class <tableId>: ... <colId> = ...) does not compile: an id is not a usable identifier
+    return ('generated-code-syntax-error', 'action %r raised %s: %s' % (a, type(ex).__name__, ex))
+  except Exception:      # pylint: disable=broad-except
+    gristenv.clean(e)
+    return None
+  return check_doc(e, a)
+
+
 def run_history(hist):
-  """Apply a list of user actions (failures of single actions are allowed); returns description or None."""
+  """Apply a list of concrete user actions; returns (kind, description) or None."""
   from harness import gristenv
   e, _ = gristenv.new_doc()
   for a in hist:
-    try:
-      gristenv.apply(e, [a])
-    except SyntaxError as ex:
-      # the generated module (class <tableId>: ... <colId> = ...) does not compile: an id is not a usable identifier
-      return ('generated-code-syntax-error', 'action %r raised %s: %s' % (a, type(ex).__name__, ex))
-    except Exception:      # pylint: disable=broad-except
-      gristenv.clean(e)
-      continue
-    tabs = engine_ids(e)
-    seen_t = []
-    for t, cols in tabs.items():
-      bad = check_id(t, seen_t, True)
-      if bad:
-        return (bad[0], 'after %r: table id %s' % (a, bad[1]))
-      seen_t.append(t)
-      seen_c = ['id']
-      for c in cols:
-        bad = check_id(c, seen_c, False)
-        if bad:
-          return (bad[0], 'after %r: column id of %s: %s' % (a, t, bad[1]))
-        seen_c.append(c)
+    bad = apply_checked(e, a)
+    if bad:
+      return bad
   return None
 
 
@@ -840,11 +857,10 @@ def resolve_and_run(hist, concrete):
     if not ok:
       continue
     concrete.append(a)
-    try:
-      gristenv.apply(e, [a])
-    except Exception:      # pylint: disable=broad-except
-      gristenv.clean(e)
-  return concrete
+    bad = apply_checked(e, a)
+    if bad:
+      return bad
+  return None
 
 
 def engine_oracle(w):
@@ -887,13 +903,10 @@ def engine_search(ctx):
         return
       continue
     w = {'fn': 'engine', 'history': hist, 'avoid': []}
-    try:
-      bad = engine_oracle(w)
-    except Exception as e:      # pylint: disable=broad-except
-      ctx.log('engine history could not be run: %r' % (e,))
-      continue
+    bad = msg          # resolve_and_run checked the document after every action
     ctx.count(('engine', repr(hist)), nontrivial=True, kind='engine-history')
     if bad:
-      ctx.violation('engine:' + bad[0], bad[1], w)
+      small = w if bad[0] == 'timeout' else shrink(w, bad[0])
+      ctx.violation('engine:' + bad[0], (engine_oracle(small) or bad)[1] if small is not w else bad[1], small)
       if len(ctx.violations) > 20 or bad[0] == 'timeout':
         return
